@@ -59,9 +59,10 @@ def run(ctx):
     from . import sessions
     from . import c13 as _c13
     for i_ in range(2):
-        sessions.run_sessions(ctx, random.Random(ctx.seed * 2 + 31 + i_), 100 if ctx.quick else 2000, ('tr', 'tr', 'kev', 'cs'),
-                              lambda r, world=None: _c13.gen_dump(r, world=world, orphans=0.3, samples=0.1),
-                              sessions.cfg_light, 'ses%d_' % i_)
+        sessions.run_sessions(ctx, random.Random(ctx.seed * 2 + 31 + i_), 200 if ctx.quick else 3000, ('tr', 'tr', 'kev', 'cs'),
+                              lambda r, world=None: _c13.gen_dump(r, world=world, orphans=0.2, samples=0.1, learn=0.35),
+                              sessions.cfg_light, 'ses%d_' % i_,
+                              scenarios=['interleave', 'interleave', 'interleave', 'random', 'peek', 'abandon'])
     # which decoder serves a record is a function of the fed object's OWN code table (spec/Dispatch_MC.tla): design
     # model-checked with its misplaced-memo variants, behaviours replayed on real parser and dict objects
     from . import dispatch
